@@ -340,6 +340,11 @@ class Abs:
                            pol and t == f'{x}.has_ident()'
                            for (t, pol) in fs):
                     return ('text', 'NUMTXT', True, None, x)
+                if (f'is_piped_symbol({x})', False) in fs:
+                    # remembered with the text: the owner is known here (in
+                    # the caller) not to be a quoted symbol, also when the
+                    # text travels on as a plain string argument
+                    return ('text', 'VERB', True, None, x, 'notpiped')
                 return ('text', 'VERB', True, None, x)
             if e.attr == 'id':
                 bk = self.kind(e.value, m, f, env, depth + 1)
@@ -542,7 +547,8 @@ class Abs:
                 return ('text', 'INNER', False, None)
             if strc and sl == '1:-1':
                 return ('text', 'STRBODY', False, None)
-            notp = owner and (f'is_piped_symbol({owner})', False) in facts
+            notp = (owner and (f'is_piped_symbol({owner})', False) in facts
+                    ) or (len(base) > 5 and base[5] == 'notpiped')
             if notp:
                 return ('text', 'FRAG', ne, None)
             return ('text', 'VERBSLICE', ne, None, owner)
